@@ -157,6 +157,9 @@ def gen_spec(rng, ptype, for_schema=False):
             kw['bounds'] = b
             kw['inclusive_bounds'] = inc
         s['bounds'], s['incl'], s['integer'] = b, inc, integer
+        if rng.random() < 0.3:
+            # advisory soft bounds (for sliders): narrower than, or instead of, the hard bounds; they constrain nothing
+            kw['softbounds'] = rng.choice([(0, 1), (-1, 1), (2, 3), (None, 0), (5, None)])
         s['gen'] = lambda r: inside(r, b, inc, integer)
     elif ptype == 'Magnitude':
         s['bounds'], s['incl'], s['integer'] = (0.0, 1.0), (True, True), False
